@@ -68,7 +68,7 @@ func main() {
 	defer md.Close()
 	if *out != "" {
 		crashFile = *out + ".running"
-		caseLimit = 10 * time.Minute
+		caseLimit = 4 * time.Minute
 		defer os.Remove(crashFile)
 	}
 	o := &Output{Property: *prop, Tier: *tier, Seed: *seed, Suites: map[string]*Stats{}, Known: map[string]int{}, Rules: map[string]string{}}
